@@ -19,7 +19,7 @@ if ! git -C "$REPO" diff --quiet HEAD -- . 2>/dev/null; then
   echo "SELFTEST skipped: $REPO has local modifications (variants are diffs against HEAD)"; exit 0
 fi
 n=0; fired=0; missed=""
-for d in mutants/* seeded/*; do
+for d in mutants/* seeded/* benign/*; do
   [ -f "$d/meta.json" ] || continue
   props=$(python3 -c "import json,sys;m=json.load(open('$d/meta.json'));print(m.get('prop') or m.get('breaks_property') or '')")
   kind=$(python3 -c "import json,sys;m=json.load(open('$d/meta.json'));print(m.get('kind','break'))")
@@ -41,7 +41,7 @@ import json,sys
 p,n,f,missed=sys.argv[1],int(sys.argv[2]),int(sys.argv[3]),sys.argv[4].split()
 path='evidence/%s.json'%p
 e=json.load(open(path))
-e['coverage']['selftest']={'variants_of_this_property':n,'behaved_as_expected':f,'unexpected':missed,'what':'stored single-edit variants (mutants/, seeded/) applied to a scratch copy: breaking ones must be reported, behaviour-preserving ones must stay silent'}
+e['coverage']['selftest']={'variants_of_this_property':n,'behaved_as_expected':f,'unexpected':missed,'what':'stored variants (mutants/, seeded/, benign/) applied to a scratch copy: breaking ones must be reported, behaviour-preserving ones must stay silent'}
 json.dump(e,open(path,'w'),indent=1)
 PY
 echo "SELFTEST property=$P variants=$n as-expected=$fired unexpected:$missed"
